@@ -112,7 +112,7 @@ def run_shard(mod, tier, seed, shard, nshards):
         return {'case': jsonable(case), 'clause': v.clause, 'details': jsonable(v.details)}
 
     # 1. corpus + known-finding witnesses (shard 0 only): the seconds-long regression tier
-    if shard == 0:
+    if shard == 0 and not os.environ.get('VERIF_NO_CORPUS'):
         open_by_witness = {os.path.join(HERE, e['witness']): e for e in judge.matcher.entries}
         for path in corpus_files(mod.ID):
             case = load_case(path)
@@ -311,7 +311,7 @@ def main(argv):
         print(errors[0]['harness_error'], file=sys.stderr)
         return 2
 
-    if merged['evaluations'] > 0:
+    if merged['evaluations'] > 0 and not os.environ.get('VERIF_NO_EVIDENCE'):
         write_evidence(mod, tier, seed, merged, wall, len(viols), nshards)
     print('%s %s seed=%d: evaluations=%d distinct_nontrivial=%d known=%s wall=%.1fs%s' % (
         pid, tier, seed, merged['evaluations'], len(merged['nontrivial']), dict(merged['known_hits']), wall,
